@@ -86,17 +86,17 @@ P['C02']['jobs'] += [_sub_job('subscribe_no_loss', 0, 2, 4, 6, ['request-complet
 
 P['C04'] = dict(
     level_text='The real mqtt_client receives PUBLISH packets (QoS 0/1/2, symbolic topic/payload bytes and Message Expiry) from a protocol-conformant broker model; every order of new messages, PUBREL, completion of the client\'s acknowledgement writes, connection loss and reconnect with Session Present 0/1 (followed by the broker\'s DUP retransmissions and PUBREL retransmissions) is explored, then a fault-free suffix. Monitors: acknowledgement type and id per QoS, PUBCOMP only after PUBREL, every PUBREL answered, delivered topic/payload/properties equal the sent ones, QoS 2 at most once and exactly once when the exchange completes, QoS 1 at least once, order per QoS level.',
-    level_note='Bounds: 2 messages, 1 connection loss, 6 (quick) / 8 (thorough) steps; backlog limit 65535 of the receive channel not reached. The broker retransmits only after a reconnect that resumes the session (MQTT-4.4.0-1).',
+    level_note='Bounds: 2 inbound messages and one request of the application (whose packet identifier equals the one the broker uses), 1 connection loss, 5 (quick) / 7 (thorough) steps; backlog limit 65535 of the receive channel not reached. The broker retransmits only after a reconnect that resumes the session (MQTT-4.4.0-1).',
     assumptions=_pub_assume[:2] + ['broker model is a conformant MQTT sender: DUP retransmission of unacknowledged PUBLISH and of PUBREL only after a reconnect with Session Present 1'],
-    jobs=[dict(name='inbound', tu='harness/w_recv.cpp', entry='h_recv', engine='B', clock=True, defs={'VK_MSGS': 2}, defs_quick={'VK_STEPS': 6}, defs_thorough={'VK_STEPS': 8},
-               reach=['qos0-delivered', 'qos1-delivered', 'qos2-delivered', 'pubrel-sent', 'pubcomp-received', 'session-lost', 'session-resumed', 'publish-retransmitted', 'pubrel-retransmitted', 'write-lost-in-flight'], samples=10)])
+    jobs=[dict(name='inbound', tu='harness/w_recv.cpp', entry='h_recv', engine='B', clock=True, defs={'VK_MSGS': 2}, defs_quick={'VK_STEPS': 5}, defs_thorough={'VK_STEPS': 7},
+               reach=['qos0-delivered', 'qos1-delivered', 'qos2-delivered', 'pubrel-sent', 'pubcomp-received', 'session-lost', 'session-resumed', 'publish-retransmitted', 'pubrel-retransmitted', 'write-lost-in-flight', 'own-publish'], samples=10)])
 
 P['C05'] = dict(
     level_text='On the real mqtt_client: up to 3 operations (publish QoS 0/1/2, subscribe, unsubscribe, a request rejected by validation) plus async_run and async_receive, interleaved with write completions, broker answers, per-operation cancellation (total and terminal), cancel(), async_disconnect (DISCONNECT written or not: then the 5 s timer fires), destruction and connection loss in every order up to the step bound, followed by async_run again. Monitors: every handler at most once and never inside the initiating call; after a stop every operation including async_run and async_receive has completed, the handler queue is empty, no socket/resolver operation is pending and no timer is armed.',
     level_note='Bounds: 3 operations, 5 (quick) / 6 (thorough) steps. "Runs out of work" is observed on the stub world: empty handler queue, no pending socket/resolver operation, no armed timer.',
     assumptions=_pub_assume[:2],
     jobs=[dict(name='completion_once_and_drain', tu='harness/w_cancel.cpp', entry='h_cancel', engine='B', clock=True, defs={'VK_OPS': 3}, defs_quick={'VK_STEPS': 5}, defs_thorough={'VK_STEPS': 6},
-               reach=['answered', 'cancel', 'disconnect', 'destroyed', 'terminal-signal', 'drained', 'restarted', 'invalid-request'], samples=10)])
+               reach=['answered', 'cancel', 'disconnect', 'destroyed', 'terminal-signal', 'drained', 'restarted', 'invalid-request', 'completion-left-queued'], samples=10)])
 
 P['C06'] = dict(
     level_text='Whole client: up to 3 publishes of any QoS with or without a (symbolic, 1..3) Receive Maximum, serial counter started next to 2^32 so that it wraps inside the bound; every order of publish / write completion / acknowledgement / connection loss + reconnect. Monitor on the wire: per connection, QoS>0 PUBLISH packets (all PUBLISH packets when no Receive Maximum applies) appear in initiation order, retransmissions included. Kernel (both engines): write_req::operator< on symbolic (flags, serial) triples is irreflexive, asymmetric, orders any two requests within a 2^31 window by initiation across the 2^32 wrap, puts prioritised first and is transitive inside a window.',
@@ -129,3 +129,64 @@ P['C19']['jobs'] += [dict(name='stream_bytes', tu='harness/w_hostile.cpp', entry
                           reach=['split', 'completed', 'well-formed-accepted', 'malformed'], samples=10),
                      dict(name='stream_flood', tu='harness/w_hostile.cpp', entry='h_hostile_stream', engine='B', clock=True, defs={'VK_FLOOD': 1}, defs_quick={'VK_BYTES': 3}, defs_thorough={'VK_BYTES': 5},
                           reach=['flood', 'oversize-refused', 'malformed'], samples=10)]
+
+P['C12'] = dict(
+    level_text='On the real mqtt_client under virtual time (stub timers fire in deadline order): configured keep-alive and Server Keep Alive are 16-bit symbols, the negotiated K ranges over 1..20 s (and 0). Checked: ping timer armed with exactly K s and read timeout with exactly 1.5 K s after CONNACK; first PINGREQ (alone in its write) no later than K after CONNACK, the next no later than K after the previous; a silent connection is given up exactly 1.5 K after the last byte arrived - after CONNACK or after a PINGRESP - and never earlier, followed by a reconnect; a reconnect with another Server Keep Alive re-arms both timers with the new value; with K = 0 nothing is armed and nothing happens.',
+    level_note='Bounds: K <= 20 s (symbolic), two ping cycles, one reconnect. Real time is replaced by the virtual clock of the stub timers; transport latency is zero. Job keepalive_arithmetic checks both timer durations right after CONNACK for EVERY 16-bit configured / Server Keep Alive value (no time line).',
+    assumptions=_pub_assume[:2] + ['timers fire in deadline order (virtual clock); network events take no time'],
+    jobs=[dict(name='keepalive', tu='harness/w_ka.cpp', entry='h_keepalive', engine='B', clock=True, defs_quick={'VK_KMAX': 20}, defs_thorough={'VK_KMAX': 60},
+               reach=['no-keepalive', 'first-ping', 'timeout-reconnect', 'second-ping', 'timeout-after-traffic', 'new-keepalive', 'new-keepalive-zero'], samples=10),
+          dict(name='keepalive_arithmetic', tu='harness/w_ka.cpp', entry='h_ka_arith', engine='B', clock=True, defs_quick={'VK_KMAX': 20}, defs_thorough={'VK_KMAX': 60}, reach=['zero', 'server-keep-alive', 'configured-keep-alive'], samples=6)])
+
+P['C13'] = dict(
+    level_text='On the real mqtt_client: every sequence (up to the step bound) of subscriptions answered with a symbolic admissible SUBACK code (granted 0..2 or refused), connection losses followed by a reconnect with Session Present 0 or 1, and inbound messages, with async_receive re-armed continuously. Monitor: the number of session_expired entries delivered equals the number of reconnects with Session Present 0 that were preceded, since the start or the previous report, by a granted subscription; none otherwise; and each report precedes every message the broker sent on the connection that caused it.',
+    level_note='Bounds: 2 subscriptions, 3 reconnects, 2 messages, 5 (quick) / 7 (thorough) steps.',
+    assumptions=_pub_assume[:2],
+    jobs=[dict(name='session_expired_once', tu='harness/w_sess.cpp', entry='h_session', engine='B', clock=True, defs_quick={'VK_STEPS': 5}, defs_thorough={'VK_STEPS': 7},
+               reach=['reported', 'subscribed', 'subscription-refused', 'session-lost-with-subscription', 'session-lost-without-subscription', 'message'], samples=10)])
+
+_caps = 'harness/w_caps.cpp'
+P['C15'] = dict(
+    level_text='On the real mqtt_client holding a CONNACK whose capability properties are absent or all present with symbolic values (Maximum Packet Size 16..64, Maximum QoS, Retain Available, Topic Alias Maximum over all 16 bits, wildcard / shared / subscription-identifier availability): one publish (any QoS, RETAIN, optional symbolic Topic Alias, payload sized below / around / above the limit), one subscribe (plain, wildcard, shared, shared+wildcard filters, optional Subscription Identifier, one or two topics) or one DISCONNECT with a short or long Reason String. A reference model of the capability rules decides what must happen: a violating request completes at once with one of the documented codes of the violated capabilities, nothing is written and no packet identifier stays consumed (the next QoS 1 publish gets id 1); otherwise the packet found on the wire respects every announced limit (size measured on the wire); an oversized DISCONNECT is re-encoded without properties.',
+    level_note='Bounds: one request per run; packet sizes up to ~60 bytes. Only the capabilities named in the statement.',
+    assumptions=_pub_assume[:2],
+    jobs=[dict(name='publish_caps', tu=_caps, entry='h_caps_publish', engine='B', clock=True, reach=['rejected-size', 'rejected-qos', 'rejected-retain', 'rejected-alias', 'accepted'], samples=10),
+          dict(name='subscribe_caps', tu=_caps, entry='h_caps_subscribe', engine='B', clock=True, reach=['rejected-shared', 'rejected-wildcard', 'rejected-subid', 'accepted'], samples=10),
+          dict(name='disconnect_caps', tu=_caps, entry='h_caps_disconnect', engine='B', clock=True, reach=['kept-properties', 'dropped-properties'], samples=6)])
+P['C16']['jobs'] += [dict(name='request_validation', tu=_caps, entry='h_req_validation', engine='B', clock=True,
+                          reach=['subscription-identifier', 'utf8-payload', 'user-property', 'response-topic', 'content-type', 'empty-topic', 'reason-string', 'unsubscribe-filter', 'accepted', 'rejected'], samples=10)]
+
+P['C11'] = dict(
+    level_text='Kernel: the real async_mutex (the connection lock) on the FIFO executor, differentially against a small reference model, under every sequence of lock requests (3-4 waiters with cancellation slots), unlock by the holder, per-waiter cancellation signals, cancel-all and single handler executions: never two holders, is_locked() equals the model after every step, every waiter answered exactly once - success in arrival order if the model grants, operation_aborted if cancelled while queued - never inside lock/unlock/cancel/emit. Whole client: simultaneous read failure, write failure and keep-alive timeout on one connection lead to exactly one connection attempt at a time (stub socket counts overlapping attempts), and a stale trigger does not connect again.',
+    level_note='Bounds: kernel 3 waiters x 8 steps (quick) / 4 x 10 (thorough); whole client: one loss with up to three simultaneous triggers. Single thread.',
+    assumptions=['single thread; FIFO executor'] + _pub_assume[:1],
+    jobs=[dict(name='mutex_model', tu='harness/k_mutex.cpp', entry='h_mutex', engine='B', clock=True, defs_quick={'VK_STEPS': 8, 'VK_WAITERS': 3}, defs_thorough={'VK_STEPS': 10, 'VK_WAITERS': 4},
+               reach=['unlock', 'waiter-cancelled', 'cancel-all', 'granted'], samples=12),
+          dict(name='single_flight', tu='harness/w_single.cpp', entry='h_single_flight', engine='B', clock=True, reach=['read-failed', 'write-failed', 'read-timeout', 'refused', 'cancelled-midway', 'reconnected-once'], samples=10)])
+
+_pid = 'harness/k_pid.cpp'
+P['C08'] = dict(
+    level_text='Inductive step on the real packet_id_allocator: from an ARBITRARY state of up to 4 (quick) / 6 (thorough) free intervals with symbolic 16-bit bounds, constrained only by the representation invariant (built through the private-member access idiom), one allocate() or one free(p) of a symbolic in-use p: invariant preserved, 0 returned exactly when nothing is free, the lowest free id returned, and the free set changes by exactly that id (checked with a universally chosen probe id). The constructor state satisfies the invariant with exactly 1..65535 free; exhaustion boundary. Since the invariant is inductive this covers histories of any length up to the interval bound. Cross-checked by bounded histories from the initial state against a shadow set, and by the whole-client monitors of C15 (a rejected request leaves no id consumed) and C07/C01 (ids of outstanding exchanges).',
+    level_note='Bounds: vectors of <= 4 / 6 intervals; histories of 6 / 9 operations. Release discipline (job release_discipline = the C05 exploration with the additional monitor ids-in-use == outstanding exchanges after every step, read from the private allocator of the client).',
+    assumptions=['private member _free_ids is reached through the explicit-instantiation access idiom (no source change)'],
+    jobs=[dict(name='pid_step', tu=_pid, entry='h_pid_step', engine='B', defs_quick={'VK_IVALS': 4}, defs_thorough={'VK_IVALS': 6}, reach=['allocated', 'exhausted', 'freed'], samples=12),
+          dict(name='pid_init', tu=_pid, entry='h_pid_init', engine='B', defs_quick={'VK_IVALS': 3}, defs_thorough={'VK_IVALS': 5}, reach=['init'], samples=4),
+          dict(name='pid_histories', tu=_pid, entry='h_pid_seq', engine='B', defs_quick={'VK_IVALS': 3, 'VK_OPS': 6}, defs_thorough={'VK_IVALS': 5, 'VK_OPS': 9}, reach=['freed'], samples=8),
+          dict(name='release_discipline', tu='harness/w_cancel.cpp', entry='h_cancel', engine='B', clock=True, defs={'VK_OPS': 3}, defs_quick={'VK_STEPS': 4}, defs_thorough={'VK_STEPS': 6}, reach=['answered', 'cancel', 'drained'], samples=6),
+          dict(name='pid_step_A', tu=_pid, entry='h_pid_step', engine='A', twin='pid_step', defs={'VK_IVALS': 2}, unwind=6, timeout=900, tiers=['thorough'])])
+
+_cod = 'harness/e_codec.cpp'
+def _cod_job(entry, reach):
+    return dict(name=entry[2:], tu=_cod, entry=entry, engine='B', defs_quick={'VK_NPROPS': 2}, defs_thorough={'VK_NPROPS': 3}, reach=reach, samples=8)
+P['C17'] = dict(
+    level_text='Every encoder the client uses (CONNECT with Will, PUBLISH, PUBACK, PUBREC, PUBREL, PUBCOMP, SUBSCRIBE, UNSUBSCRIBE, PINGREQ, DISCONNECT, AUTH) is executed with symbolic scalar fields, symbolic string bytes and every combination of up to 2 (quick) / 3 (thorough) properties of its property set carrying symbolic values; PUBLISH additionally at Remaining Length 127/128 and 16383/16384. The strict reference decoder must accept the bytes as exactly one packet (fixed-header flags, Remaining Length equal to the size, only allowed properties, each at most once) and return exactly the supplied values.',
+    level_note='Bounds: strings of 1-2 bytes (payload up to 16 KB with concrete filler), <= 2 / 3 properties at once, 1-2 topics. The 2097151/2097152 length boundary is not covered. Values the request validators refuse (strings > 65535, negative varint) are not encoded.',
+    assumptions=['reference decoder harness/ref_mqtt.hpp written by hand from MQTT 5.0 sections 2.1-2.2, 3.1-3.15'],
+    jobs=[_cod_job('h_enc_publish', ['ok', 'two-byte-length', 'three-byte-length']), _cod_job('h_enc_puback', ['ok']), _cod_job('h_enc_pubrec', ['ok']), _cod_job('h_enc_pubrel', ['ok']), _cod_job('h_enc_pubcomp', ['ok']),
+          _cod_job('h_enc_subscribe', ['ok']), _cod_job('h_enc_unsubscribe', ['ok']), _cod_job('h_enc_disconnect_auth_ping', ['disconnect', 'auth', 'pingreq']), _cod_job('h_enc_connect', ['ok', 'with-will'])])
+P['C18'] = dict(
+    level_text='For every packet type a broker sends (CONNACK, PUBLISH, PUBACK, PUBREC, PUBREL, PUBCOMP, SUBACK, UNSUBACK, DISCONNECT, AUTH) the independent reference encoder produces a well-formed packet from symbolic fields and a forked shape (which of the allowed properties - up to 2 / 3 at once, with symbolic values -, which short form: no reason code, reason code only, with properties; 1-3 reason codes; payload 0-2 bytes); the real decoder runs on an exact-size buffer and must succeed and return exactly the encoded fields; the decoded values are then re-encoded with the real encoder and the strict reference decoder must find the same contents.',
+    level_note='Bounds: strings of 1-2 bytes, <= 2 / 3 properties at once. Longer strings and more than one User Property / Subscription Identifier only through C19 and the whole-client harnesses.',
+    assumptions=['reference codec harness/ref_mqtt.hpp written by hand from MQTT 5.0 sections 2.1-2.2, 3.1-3.15'],
+    jobs=[_cod_job('h_dec_puback', ['short-form', 'rc-only', 'full']), _cod_job('h_dec_pubrec', ['full']), _cod_job('h_dec_pubrel', ['full']), _cod_job('h_dec_pubcomp', ['full']), _cod_job('h_dec_connack', ['ok']),
+          _cod_job('h_dec_publish', ['ok']), _cod_job('h_dec_suback', ['ok']), _cod_job('h_dec_unsuback', ['ok']), _cod_job('h_dec_disconnect', ['short-form', 'rc-only', 'full']), _cod_job('h_dec_auth', ['full'])])
